@@ -119,6 +119,34 @@ impl FileDesc {
             )));
         }
 
+        if (oti.fec_encoding_id == oti::FECEncodingID::ReedSolomonGF28
+            || oti.fec_encoding_id == oti::FECEncodingID::ReedSolomonGF28UnderSpecified)
+            && oti.max_number_of_parity_symbols == 0
+            && object.transfer_length > 0
+        {
+            return Err(FluteError::new(
+                "FEC Reed Solomon is selected, however the number of parity symbols is 0",
+            ));
+        }
+
+        if oti.fec_encoding_id == oti::FECEncodingID::Raptor {
+            let (a_large, a_small, nb_a_large, nb_blocks) = partition::block_partitioning(
+                oti.maximum_source_block_length as u64,
+                object.transfer_length,
+                oti.encoding_symbol_length as u64,
+            );
+            // The Raptor matrix is not fully specified for blocks of 2 or 3 symbols
+            let is_unsupported = |k: u64| k == 2 || k == 3;
+            if (nb_a_large > 0 && is_unsupported(a_large))
+                || (nb_a_large < nb_blocks && is_unsupported(a_small))
+            {
+                return Err(FluteError::new(format!(
+                    "Object transfer length of {} leads to source blocks of {} / {} symbols, FEC Raptor does not support blocks of 2 or 3 symbols",
+                    object.transfer_length, a_large, a_small
+                )));
+            }
+        }
+
         if oti.fec_encoding_id == oti::FECEncodingID::RaptorQ
             || oti.fec_encoding_id == oti::FECEncodingID::Raptor
         {
